@@ -65,9 +65,10 @@ fn build(ctx: &Ctx, cons: &Consensus) -> Result<Universe, String> {
     let tg = tg0.as_advanced_builder().set_outputs_data(vec![group_ok.pack(), group_bad.pack(), Bytes::new().pack()]).build();
     // Td: spends g2 (so that g2 is dead in the context)
     let td = simple_tx(cons, &g[2..3], 1, 1_000_000, 3);
-    // branch q: spends g3 and g0 differently
+    // branch q: one block on top of p3 that spends two of the cells created in block 3 (and g3);
+    // it is detached when p4, p5 arrive, so those cells are restored by the rollback
     let tq = simple_tx(cons, &g[3..4], 1, 1_000_000, 4);
-    let tq2 = simple_tx(cons, &g[0..1], 1, 2_000_000, 5);
+    let tq2 = simple_tx(cons, &[out(&ta, 0), out(&ta, 1)], 1, 2_000_000, 5);
 
     // ---- candidates
     let mut cands: Vec<Cand> = vec![];
@@ -185,6 +186,7 @@ fn build(ctx: &Ctx, cons: &Consensus) -> Result<Universe, String> {
         let mut spec = BlockSpec { miner: 1, ..Default::default() };
         match n {
             1 => spec.proposals = vec![ta.proposal_short_id(), tg.proposal_short_id(), td.proposal_short_id()],
+            2 => spec.proposals = vec![tq.proposal_short_id(), tq2.proposal_short_id()],
             3 => {
                 spec.txs = vec![ta.clone(), tg.clone(), td.clone()];
             }
@@ -194,25 +196,13 @@ fn build(ctx: &Ctx, cons: &Consensus) -> Result<Universe, String> {
         parent = b.hash();
         p.push(b);
     }
+    let _ = genesis;
     let mut q = vec![];
-    let mut parent = genesis;
-    for n in 1..=4u64 {
-        let mut spec = BlockSpec { miner: 2, ts_offset: 1, ..Default::default() };
-        match n {
-            1 => spec.proposals = vec![tq.proposal_short_id(), tq2.proposal_short_id()],
-            3 => spec.txs = vec![tq.clone(), tq2.clone()],
-            _ => {}
-        }
-        let b = forge.build_on(&parent, &spec)?;
-        parent = b.hash();
-        q.push(b);
-    }
     // header deps
     {
         let t = plain(&g[3..4], 60);
         cands.push(Cand { name: "header-dep/main-chain-block".into(), txs: vec![t.as_advanced_builder().header_dep(p[1].hash()).build()], valid_in_block: true, valid_in_pool: Some(true) });
         cands.push(Cand { name: "header-dep/unknown".into(), txs: vec![t.as_advanced_builder().header_dep(rnd(0x34)).build()], valid_in_block: false, valid_in_pool: Some(false) });
-        cands.push(Cand { name: "header-dep/side-branch-block".into(), txs: vec![t.as_advanced_builder().header_dep(q[0].hash()).build()], valid_in_block: false, valid_in_pool: Some(false) });
         cands.push(Cand { name: "header-dep/tip".into(), txs: vec![t.as_advanced_builder().header_dep(p[4].hash()).build()], valid_in_block: true, valid_in_pool: Some(true) });
     }
     // p3 must propose every candidate: rebuild p3..p5 with the proposals (ids are known now)
@@ -229,6 +219,14 @@ fn build(ctx: &Ctx, cons: &Consensus) -> Result<Universe, String> {
         let b = forge.build_on(&parent, &spec)?;
         parent = b.hash();
         p.push(b);
+    }
+    // q4: a child of (the final) p3
+    q.push(forge.build_on(&p[2].hash(), &BlockSpec { miner: 2, ts_offset: 1, txs: vec![tq.clone(), tq2.clone()], ..Default::default() })?);
+    // the side-branch header dep names q4: its candidate is made now (its id cannot be proposed in p3:
+    // it is an invalid candidate anyway, any block carrying it is refused)
+    {
+        let t = simple_tx(cons, &g[3..4], 1, 1_000_000, 60);
+        cands.push(Cand { name: "header-dep/side-branch-block".into(), txs: vec![t.as_advanced_builder().header_dep(q[0].hash()).build()], valid_in_block: false, valid_in_pool: Some(false) });
     }
     // the id of "header-dep/tip" depends on p5's hash, which depends on the proposals: it cannot be
     // proposed in p3; drop it and use p4's parent instead
@@ -254,7 +252,7 @@ pub fn meta(_tier: Tier) -> Meta {
     Meta {
         id: "C04",
         level: "model_checking",
-        rule: "context p1..p5 (flat world with the witness-dependent lock in genesis): cells created in block 3, a spent genesis cell, a dep-group cell with a good and a bad member list, a cell under a lock whose code does not exist; every candidate id proposed in p3. Catalogue (for each rule the boundary and the violation): inputs unknown / dead / out of range / twice / created in block 3 / created earlier or later in the same block; cell deps live / unknown / dead / group / group with unknown member / unknown group / none; header deps main-chain / unknown / side-branch; capacity outputs = inputs, +1, output exactly occupied, occupied-1; since absolute block 6..9, relative block 3..6, absolute epoch 1+1/4..1+3/4, relative epoch 2/4, 3/4, 1, malformed epoch, absolute / relative time far past and far future, reserved flag, metric 11, zero; lock code missing, witness that makes the lock succeed / fail / absent, output type code missing. Each candidate is committed in block 6 on a node that received p1..p5 directly and on a node that first followed branch q (other spends) and reorganised onto p; and submitted to the pool of a node at tip 5. Expected: block verdict by construction (commit position 6, epoch 1+2/4); pool verdict by construction at the position the pool assumes (block 6 for a proposed id, block 8 for the unproposed variants, the tip's epoch); both nodes agree; a refused block leaves the tip unchanged.",
+        rule: "context p1..p5 (flat world with the witness-dependent lock in genesis and one epoch of cellbase maturity): cells created in block 3, a spent genesis cell, a dep-group cell with a good and a bad member list, a cell under a lock whose code does not exist; every candidate id proposed in p3. Catalogue (for each rule the boundary and the violation): inputs unknown / dead / out of range / twice / created in block 3 / created earlier or later in the same block; cell deps live / unknown / dead / group / group with unknown member / unknown group / none; header deps main-chain / unknown / side-branch; capacity outputs = inputs, +1, output exactly occupied, occupied-1; since absolute block 6..9, relative block 3..6, absolute epoch 1+1/4..1+3/4, relative epoch 2/4, 3/4, 1, malformed epoch, absolute / relative time far past and far future, reserved flag, metric 11, zero; lock code missing, witness that makes the lock succeed / fail / absent, output type code missing. Each candidate is committed in block 6 on a node that received p1..p5 directly and on a node that after p3 followed a block q4 spending cells created in block 3 and was reorganised back by p4, p5 (those cells are restored by the rollback); and submitted to the pool of a node at tip 5. Expected: block verdict by construction (commit position 6, epoch 1+2/4); pool verdict by construction at the position the pool assumes (block 6 for a proposed id, block 8 for the unproposed variants, the tip's epoch); both nodes agree; a refused block leaves the tip unchanged.",
         assumptions: &["zero-fee and same-block parent/child candidates are not compared in the pool (fee policy / one submission at a time)", "cellbase maturity is exercised in C14's maturity family", "median-time since values are taken far from the boundary"],
         bounds: json!({"commit_position": 6}),
     }
@@ -264,6 +262,8 @@ pub fn run(ctx: &Ctx) -> Report {
     let mut report = Report::new();
     let mut w = WorldOpts::default();
     w.witness_lock = true;
+    // a non-zero cellbase maturity: a cell wrongly taken for a cellbase output would be refused
+    w.cellbase_maturity = EpochNumberWithFraction::new(1, 0, 1);
     let cons = consensus(&w);
     let which: Option<String> = ctx.replay.as_ref().map(|p| load_replay_case(p)["candidate"].as_str().unwrap_or("").to_string());
     if which.is_some() {
@@ -289,12 +289,19 @@ pub fn run(ctx: &Ctx) -> Report {
         let via_reorg = boot("reorg", false)?;
         let pooln = boot("pool", true)?;
         let builder = boot("builder", false)?;
-        for b in &u.q {
-            via_reorg.process(b).map_err(|e| format!("q: {e}"))?;
-        }
         for n in [&direct, &via_reorg, &pooln, &builder] {
             for b in &u.p {
                 n.process(b).map_err(|e| format!("p{}: {e}", b.number()))?;
+                // the node that takes a detour: after p3 it follows q4 (which spends cells created
+                // in block 3), then p4 and p5 reorganise it back
+                if b.number() == 3 && std::ptr::eq(n, &via_reorg) {
+                    for qb in &u.q {
+                        n.process(qb).map_err(|e| format!("q: {e}"))?;
+                    }
+                    if n.tip().hash() != u.q.last().unwrap().hash() {
+                        return Err("the detour block did not become the tip".into());
+                    }
+                }
             }
             if n.tip().hash() != u.p[4].hash() {
                 return Err("context tip not reached".into());
